@@ -121,6 +121,10 @@ class IntersectionBoundaryDomain(BoundaryDomain):
         in_b = self.domain.domain_b._contains(points, params)
         on_a_bound = self.domain.domain_a.boundary._contains(points, params)
         on_b_bound = self.domain.domain_b.boundary._contains(points, params)
+        # closed sets: a point on both boundaries belongs to the boundary of the
+        # intersection, whatever rounding makes of the (tolerance free) inside tests
+        in_a = torch.logical_or(in_a, on_a_bound)
+        in_b = torch.logical_or(in_b, on_b_bound)
         on_a_part = torch.logical_and(on_a_bound, in_b)
         on_b_part = torch.logical_and(on_b_bound, in_a)
         return torch.logical_or(on_a_part, on_b_part)
